@@ -308,3 +308,15 @@ impl Prg {
         self.0.next_u64()
     }
 }
+
+// ---------------------------------------------------------------------------------------------
+// garbled rows (C07 label census)
+// ---------------------------------------------------------------------------------------------
+
+/// Does row `row` of the garbled AND gate at instruction `w` open under the two input labels?
+/// On success returns the decrypted share bit and the output label (as plain integers).
+pub fn open_garbled_row(label_x: u128, label_y: u128, w: usize, row: u8, ciphertext: &[u8]) -> Option<(bool, u128)> {
+    use crate::mpc::{data_types::Label, garble};
+    let key = garble::GarblingKey::new(Label(label_x), Label(label_y), w, row);
+    garble::decrypt(&key, ciphertext).ok().map(|(bit, _macs, label)| (bit, label.0))
+}
